@@ -259,11 +259,11 @@ Lemma act_keep ll total idx n : act ll total idx n = AKeep <-> idx < total /\ (i
 Proof. unfold act. destruct (Nat.leb_spec total idx), (Nat.leb_spec ll idx), (ext_is n gz_sfx); intuition (try discriminate; try lia). Qed.
 
 Lemma cleanup_loop_cons w n r idx ll total :
-  cleanup_loop w (n :: r) idx ll total =
+  cleanup_loop w (n :: r) idx ll total None =
   match act ll total idx n with
-  | ARemove => let '(ok, w1) := p_remove w n in if ok then cleanup_loop w1 r (S idx) ll total else (false, w1)
-  | ACompress => let '(ok, w1) := compress_file w n in if ok then cleanup_loop w1 r (S idx) ll total else (false, w1)
-  | AKeep => cleanup_loop w r (S idx) ll total
+  | ARemove => let '(ok, w1) := p_remove w n in if ok then cleanup_loop w1 r (S idx) ll total None else (false, w1)
+  | ACompress => let '(ok, w1) := compress_file w n in if ok then cleanup_loop w1 r (S idx) ll total None else (false, w1)
+  | AKeep => cleanup_loop w r (S idx) ll total None
   end.
 Proof.
   cbn [cleanup_loop]. unfold act, ext_is. destruct (Nat.leb total idx); [reflexivity|].
@@ -281,7 +281,7 @@ Definition outcome (a : action) (f f' : fs) (n : bytes) : Prop :=
 Lemma cleanup_step w n r idx ll total :
   quiet w -> fs_wf (wfs w) -> (act ll total idx n <> AKeep -> lookup (wfs w) n <> None) ->
   (act ll total idx n = ACompress -> not_dir (wfs w) (gz_name n)) ->
-  exists w1, cleanup_loop w (n :: r) idx ll total = cleanup_loop w1 r (S idx) ll total
+  exists w1, cleanup_loop w (n :: r) idx ll total None = cleanup_loop w1 r (S idx) ll total None
     /\ same_env w w1 /\ fs_wf (wfs w1)
     /\ outcome (act ll total idx n) (wfs w) (wfs w1) n
     /\ (forall m, m <> n -> (act ll total idx n = ACompress -> m <> gz_name n) -> same_at (wfs w) (wfs w1) m).
@@ -312,7 +312,7 @@ Theorem cleanup_loop_act ll total : forall files w idx,
   (forall k n, nth_error files k = Some n -> act ll total (idx + k) n <> AKeep -> lookup (wfs w) n <> None) ->
   (forall k n, nth_error files k = Some n -> act ll total (idx + k) n = ACompress -> ~ In (gz_name n) files) ->
   (forall k n, nth_error files k = Some n -> act ll total (idx + k) n = ACompress -> not_dir (wfs w) (gz_name n)) ->
-  exists w', cleanup_loop w files idx ll total = (true, w') /\ same_env w w' /\ fs_wf (wfs w')
+  exists w', cleanup_loop w files idx ll total None = (true, w') /\ same_env w w' /\ fs_wf (wfs w')
     /\ (forall k n, nth_error files k = Some n -> outcome (act ll total (idx + k) n) (wfs w) (wfs w') n)
     /\ (forall m, ~ In m files ->
           (forall k n, nth_error files k = Some n -> act ll total (idx + k) n = ACompress -> m <> gz_name n) ->
@@ -374,7 +374,7 @@ Theorem cleanup_loop_spec w files index ll total :
                ~ In (gz_name n) files) ->
   (forall k n, nth_error files k = Some n -> ll <= index + k < total -> ext_is n gz_sfx = false ->
                not_dir (wfs w) (gz_name n)) ->
-  exists w', cleanup_loop w files index ll total = (true, w') /\ same_env w w' /\ fs_wf (wfs w')
+  exists w', cleanup_loop w files index ll total None = (true, w') /\ same_env w w' /\ fs_wf (wfs w')
     /\ (forall k n, nth_error files k = Some n ->
           (* from total on: removed *)
           (total <= index + k -> lookup (wfs w') n = None)
@@ -481,7 +481,7 @@ Theorem cleanup_loop_kept w files ll total :
   (forall n, In n (gone_part total files) -> lookup (wfs w) n <> None) ->
   (forall n, In n (zone_part ll total files) -> ext_is n gz_sfx = false -> ~ In (gz_name n) files) ->
   (forall n, In n (zone_part ll total files) -> ext_is n gz_sfx = false -> not_dir (wfs w) (gz_name n)) ->
-  exists w', cleanup_loop w files 0 ll total = (true, w') /\ same_env w w' /\ fs_wf (wfs w')
+  exists w', cleanup_loop w files 0 ll total None = (true, w') /\ same_env w w' /\ fs_wf (wfs w')
     /\ length (keep_part ll files) <= ll /\ length (zone_part ll total files) <= total - ll
     /\ (forall n, In n (keep_part ll files) -> same_at (wfs w) (wfs w') n)
     /\ (forall n, In n (zone_part ll total files) ->
@@ -524,7 +524,7 @@ Theorem cleanup_loop_counts w files ll total w' :
   (forall n, In n files -> lookup (wfs w) n <> None) ->
   (forall n, In n (zone_part ll total files) -> ext_is n gz_sfx = false -> ~ In (gz_name n) files) ->
   (forall n, In n (zone_part ll total files) -> ext_is n gz_sfx = false -> not_dir (wfs w) (gz_name n)) ->
-  cleanup_loop w files 0 ll total = (true, w') ->
+  cleanup_loop w files 0 ll total None = (true, w') ->
   let keep := keep_part ll files in
   let zone := zone_part ll total files in
   let survivors := keep ++ map arch zone in
@@ -663,7 +663,7 @@ Theorem cleanup_after_listing w files ll total :
   let red := redundant_gz files in
   let files' := without red files in
   exists w1 w', remove_redundant w red files = (true, w1, files')
-    /\ cleanup_loop w1 files' 0 ll total = (true, w') /\ same_env w w' /\ fs_wf (wfs w')
+    /\ cleanup_loop w1 files' 0 ll total None = (true, w') /\ same_env w w' /\ fs_wf (wfs w')
     (* a redundant archive is gone - unless its original is compressed now, which creates it anew (see the zone) *)
     /\ (forall n, In n red -> ~ In n (map gz_name (filter not_gz (zone_part ll total files'))) -> lookup (wfs w') n = None)
     /\ (forall n, In n (keep_part ll files') -> same_at (wfs w) (wfs w') n)
@@ -743,7 +743,7 @@ Qed.
 
 (* the hypotheses of cleanup_loop_spec hold for this world (they are not vacuous) ... *)
 Example cleanup_loop_spec_instance :
-  exists w', cleanup_loop (world_of fs4) files4 0 1 3 = (true, w') /\ same_env (world_of fs4) w' /\ fs_wf (wfs w')
+  exists w', cleanup_loop (world_of fs4) files4 0 1 3 None = (true, w') /\ same_env (world_of fs4) w' /\ fs_wf (wfs w')
     /\ same_at fs4 (wfs w') n3 /\ archived fs4 (wfs w') n2 /\ same_at fs4 (wfs w') n1 /\ lookup (wfs w') n0 = None.
 Proof.
   destruct (cleanup_loop_spec (world_of fs4) files4 0 1 3) as (w' & E & S & W' & O & _).
@@ -764,7 +764,7 @@ Qed.
 (* ... and the model computes exactly this: the newest file and the old archive as before, the second file
    compressed (kind 1, same content), the oldest file gone *)
 Example cleanup_loop_run :
-  let r := cleanup_loop (world_of fs4) files4 0 1 3 in
+  let r := cleanup_loop (world_of fs4) files4 0 1 3 None in
   fst r = true
   /\ List.map (file_of (wfs (snd r))) [n3; n2; gz_name n2; n1; n0]
      = [Some {| fdata := bs "three"%string; fgz := 0; fborn := 40; fdir := false |};
@@ -776,8 +776,8 @@ Proof. vm_compute. split; reflexivity. Qed.
 
 (* a listed name that does not exist makes the loop fail (remove_file and File::open report NotFound) *)
 Example cleanup_loop_missing_file :
-  fst (cleanup_loop (world_of fs4) [n3; bs "app_r00009.log"%string] 0 1 1) = false
-  /\ fst (cleanup_loop (world_of fs4) [n3; bs "app_r00009.log"%string] 0 1 2) = false.
+  fst (cleanup_loop (world_of fs4) [n3; bs "app_r00009.log"%string] 0 1 1 None) = false
+  /\ fst (cleanup_loop (world_of fs4) [n3; bs "app_r00009.log"%string] 0 1 2 None) = false.
 Proof. vm_compute. split; reflexivity. Qed.
 Example remove_redundant_missing_file :
   fst (fst (remove_redundant (world_of fs4) [bs "app_r00009.log.gz"%string] files4)) = false.
@@ -788,7 +788,7 @@ Proof. vm_compute. reflexivity. Qed.
    such archives first (remove_redundant, no_clash_without_redundant). *)
 Definition fs_clash : fs := mkfile (mkfile empty_fs (bs "a.log"%string) (bs "new"%string) 0 10) (bs "a.log.gz"%string) (bs "old"%string) 1 20.
 Example cleanup_loop_clash :
-  let r := cleanup_loop (world_of fs_clash) [bs "a.log.gz"%string; bs "a.log"%string] 0 1 2 in
+  let r := cleanup_loop (world_of fs_clash) [bs "a.log.gz"%string; bs "a.log"%string] 0 1 2 None in
   fst r = true
   /\ file_of fs_clash (bs "a.log.gz"%string) = Some {| fdata := bs "old"%string; fgz := 1; fborn := 20; fdir := false |}
   /\ file_of (wfs (snd r)) (bs "a.log.gz"%string) = Some {| fdata := bs "new"%string; fgz := 1; fborn := 20; fdir := false |}.
@@ -802,15 +802,74 @@ Definition fs_dir : fs :=
                  {| fdata := []; fgz := 0; fborn := 2; fdir := true |} ] |}.
 Example compress_file_over_directory :
   compress_file (world_of fs_dir) (bs "a.log"%string) = (false, world_of fs_dir)
-  /\ fst (cleanup_loop (world_of fs_dir) [bs "a.log"%string] 0 0 1) = false
+  /\ fst (cleanup_loop (world_of fs_dir) [bs "a.log"%string] 0 0 1 None) = false
   /\ file_of fs_dir (bs "a.log.gz"%string) = Some {| fdata := []; fgz := 0; fborn := 2; fdir := true |}.
 Proof. vm_compute. repeat split. Qed.
 
 (* a name without extension is compressed as well (the None branch of the loop test) *)
 Definition fs_noext : fs := mkfile empty_fs (bs "applog"%string) (bs "data"%string) 0 10.
 Example cleanup_loop_no_extension :
-  let r := cleanup_loop (world_of fs_noext) [bs "applog"%string] 0 0 1 in
+  let r := cleanup_loop (world_of fs_noext) [bs "applog"%string] 0 0 1 None in
   act 0 1 0 (bs "applog"%string) = ACompress /\ fst r = true
   /\ file_of (wfs (snd r)) (bs "applog"%string) = None
   /\ file_of (wfs (snd r)) (bs "applog.gz"%string) = Some {| fdata := bs "data"%string; fgz := 1; fborn := 100; fdir := false |}.
 Proof. vm_compute. repeat split. Qed.
+
+(* ------------------------------------------------------------------ 5. the current output file (o_current) *)
+(* The loop skips the entry equal to cur.  Where every position that holds the current file is a position that is
+   kept anyway (e.g. position 0 with log_limit >= 1, where the direct namings put it as long as the clock is not
+   set back), or where the current file is not listed, the argument makes no difference: the theorems above apply. *)
+Lemma cleanup_loop_cur_cons w n r idx ll total cur :
+  match cur with Some p => beq p n | None => false end = false ->
+  cleanup_loop w (n :: r) idx ll total cur =
+  match act ll total idx n with
+  | ARemove => let '(ok, w1) := p_remove w n in if ok then cleanup_loop w1 r (S idx) ll total cur else (false, w1)
+  | ACompress => let '(ok, w1) := compress_file w n in if ok then cleanup_loop w1 r (S idx) ll total cur else (false, w1)
+  | AKeep => cleanup_loop w r (S idx) ll total cur
+  end.
+Proof.
+  intros B. cbn [cleanup_loop]. rewrite B. unfold act, ext_is. destruct (Nat.leb total idx); [reflexivity|].
+  destruct (Nat.leb ll idx); [|reflexivity]. destruct (extension n) as [e|]; [|reflexivity].
+  destruct (beq e gz_sfx); reflexivity.
+Qed.
+Lemma cleanup_loop_cur_skip w p r idx ll total :
+  cleanup_loop w (p :: r) idx ll total (Some p) = cleanup_loop w r (S idx) ll total (Some p).
+Proof. cbn [cleanup_loop]. rewrite beq_refl. reflexivity. Qed.
+
+Lemma cleanup_loop_cur_kept ll total p : forall files w idx,
+  (forall k, nth_error files k = Some p -> act ll total (idx + k) p = AKeep) ->
+  cleanup_loop w files idx ll total (Some p) = cleanup_loop w files idx ll total None.
+Proof.
+  induction files as [|n r IH]; intros w idx H; [reflexivity|].
+  assert (HS : forall w1, cleanup_loop w1 r (S idx) ll total (Some p) = cleanup_loop w1 r (S idx) ll total None).
+  { intros w1. apply IH. intros k Hk. replace (S idx + k) with (idx + S k) by lia. apply H. exact Hk. }
+  destruct (beq p n) eqn:B.
+  - apply beq_eq in B. subst n. rewrite cleanup_loop_cur_skip, cleanup_loop_cons.
+    specialize (H 0 eq_refl). rewrite Nat.add_0_r in H. rewrite H. apply HS.
+  - rewrite cleanup_loop_cons, (cleanup_loop_cur_cons w n r idx ll total (Some p) B).
+    destruct (act ll total idx n).
+    + apply HS.
+    + destruct (compress_file w n) as [[|] w1]; [apply HS | reflexivity].
+    + destruct (p_remove w n) as [[|] w1]; [apply HS | reflexivity].
+Qed.
+
+(* the current file is not listed *)
+Lemma cleanup_loop_cur_not_listed ll total p files w idx : ~ In p files ->
+  cleanup_loop w files idx ll total (Some p) = cleanup_loop w files idx ll total None.
+Proof. intros H. apply cleanup_loop_cur_kept. intros k Hk. exfalso. apply H. eapply nth_error_In; exact Hk. Qed.
+
+(* the current file is listed among the first log_limit entries only (NoDup: once) *)
+Lemma cleanup_loop_cur_in_keep ll total p files w : NoDup files -> ll <= total -> In p (keep_part ll files) ->
+  cleanup_loop w files 0 ll total (Some p) = cleanup_loop w files 0 ll total None.
+Proof.
+  intros ND Hle Hin. apply cleanup_loop_cur_kept. intros k Hk. cbn [Nat.add].
+  apply In_firstn_nth in Hin. destruct Hin as (j & Hj & Ej).
+  assert (k = j).
+  { apply (proj1 (NoDup_nth_error files) ND); [apply nth_error_Some; congruence | congruence]. }
+  subst j. apply act_keep. split; [lia | left; exact Hj].
+Qed.
+
+(* whatever cur is, it makes no difference for cleanup_impl's first limit when the limit is positive *)
+Lemma cur_limit_pos (cur : option bytes) ll : 1 <= ll ->
+  (if match cur with Some _ => true | None => false end && Nat.eqb ll 0 then 1 else ll) = ll.
+Proof. intros H. destruct ll; [lia|]. cbn [Nat.eqb]. rewrite andb_false_r. reflexivity. Qed.
